@@ -336,3 +336,9 @@ def run(ctx):
     from props import C11, C12
     C11.r_forms(ctx)
     C12.r_pack_bits(ctx)
+    # "opens with the current code ... passes C01 ... can be updated and rebuilt incrementally": the open protocol (C06), the
+    # forest disciplines (C01) and the re-encoding of stored leaves (C18) are premises of reading a reference database back
+    import premises
+    premises.forest(ctx)
+    import vec_rules as _vr
+    _vr.trunc_rule(ctx, 'R-TRUNC')
